@@ -113,7 +113,7 @@ def write_replay(f: Finding, n):
     with open(p, 'w') as fh:
         json.dump({'property': f.prop, 'rule': f.rule, 'key': f.key,
                    'location': f.loc, 'message': f.msg, 'detail': f.detail,
-                   'replay': f'python3-vt sa/check.py {f.prop} --only {f.rule}'},
+                   'replay': f'python3-vt sa/check.py {f.prop} --replay <this file>'},
                   fh, indent=1, default=str)
     return p
 
